@@ -24,7 +24,9 @@ type C18Case struct {
 	Plan    *sim.Plan      `json:"plan,omitempty"`
 	// Prior is what the output path holds before the run: "none", "same" (the
 	// result of an earlier identical run: a user runs go generate again) or
-	// "stale" (an older result). The CLI contract is the same in all three.
+	// "stale" (an older result), "empty" (a placeholder, or what an interrupted
+	// write left) or "foreign" (a file of the package that no generator wrote).
+	// The CLI contract is the same in all of them.
 	Prior string `json:"prior,omitempty"`
 	// LogDiff: the "-log changes neither code nor exit status" clause taken
 	// differentially where no reference bytes exist: -out into a directory that
@@ -33,7 +35,7 @@ type C18Case struct {
 	LogDiff bool `json:"log_diff,omitempty"`
 }
 
-var c18Priors = []string{"none", "same", "stale"}
+var c18Priors = []string{"none", "same", "stale", "empty", "foreign"}
 
 var c18Forms = []string{"rel-pkgdir", "rel-modroot", "abs", "gofile", "gofile-overridden", "symlink-modroot", "gofile-with-dir"}
 var c18Outs = []string{"none", "same-dir", "subdir", "dotdot-outside"}
@@ -178,6 +180,10 @@ func execC18(env *sim.Env, c C18Case) CaseResult {
 		steps = append(steps, Step{Op: "write", Path: iv.OutPath, Data: c.Canon})
 	case "stale":
 		steps = append(steps, Step{Op: "write", Path: iv.OutPath, Data: []byte("// Code generated by github.com/reedom/convergen\n// DO NOT EDIT.\n\npackage " + pkgNameOf(c.World.Files[c.World.Setup]) + "\n\n// result of an older setup file\nfunc OlderResult() {}\n")})
+	case "empty":
+		steps = append(steps, Step{Op: "write", Path: iv.OutPath, Data: []byte{}})
+	case "foreign":
+		steps = append(steps, Step{Op: "write", Path: iv.OutPath, Data: []byte("package " + pkgNameOf(c.World.Files[c.World.Setup]) + "\n\n// Placeholder was written by hand.\nvar Placeholder = 1\n")})
 	}
 	steps = append([]Step{{Op: "symlink", Path: "{W}/elsewhere/modlink", Data: []byte("{W}/mod")}}, steps...)
 	steps = append(steps, run)
